@@ -81,6 +81,9 @@ func (t *Tracer) Emit(e Event, nontrivial bool) {
 	t.w.Write(b)
 	t.w.WriteByte('\n')
 	t.N++
+	if t.N%100 == 0 {
+		t.w.Flush() // a later call may blow up (mutated code): keep what was recorded
+	}
 	if nontrivial {
 		ka, _ := json.Marshal(e.A)
 		kw, _ := json.Marshal(e.W)
